@@ -400,8 +400,12 @@ impl<'a> CRTDetBuilder<'a> {
                 p -= 30;
             }
             primes.push(p);
-            self.echelons.push(GFpEchelonBuilder::new(p));
+            // Echelons are shared between calls: echelons[k] belongs to the k-th prime.
+            if self.echelons.len() <= modp.len() {
+                self.echelons.push(GFpEchelonBuilder::new(p));
+            }
             let mp = &mut self.echelons[modp.len()];
+            debug_assert!(mp.p == p);
             if mp.basis.len() > self.rows.len() {
                 mp.truncate(self.rows.len());
             }
